@@ -5,12 +5,14 @@ src/utils/str.py, src/utils/gen.py and plugins/Config/plugin.py it relies on).
   Codec.lean   unicode_escape encoder/decoder, repr(str), evaluation of one string literal
   Values.lean  String family, Boolean, Integer family, Space/Comma separated lists
   File.lean    registry.close line format, open_registry, escape/unescape/split/join of names
+  Wrap.lean    NormalizedString.serialize: textwrap line filling, continuation lines
   Tree.lean    the live value tree: _wasSet, _setValue(inherited), _makeChild, getSpecific,
                Config reset, which nodes are written, start-up registration from the cache
 
 This file ties them together: what a save followed by a load gives.
 -/
 import LimnoriaModel.C15.Tree
+import LimnoriaModel.C15.Wrap
 namespace C15
 open Py
 
